@@ -30,6 +30,8 @@ type Case struct {
 	PrevRect [4]int `json:"prev_rect,omitempty"`
 	// PrevViewBox: the viewBox of that earlier use (zero size = the same viewBox).
 	PrevViewBox [4]ops.F32 `json:"prev_viewbox,omitempty"`
+	// PrevOpen: that earlier use stopped inside its path (a truncated graphic).
+	PrevOpen bool `json:"prev_open,omitempty"`
 	// RectAfterReset: the caller gives the viewBox first (Reset) and aims the Renderer at its
 	// rectangle afterwards (SetRasterizer); either order defines the same map.
 	RectAfterReset bool `json:"rect_after_reset,omitempty"`
@@ -58,7 +60,9 @@ func checkGeometry(c Case) error {
 		z.StartPath(0, 1, 1)
 		z.AbsLineTo(2, 3)
 		z.AbsQuadTo(4, 5, 6, 7)
-		z.ClosePathEndPath()
+		if !c.PrevOpen {
+			z.ClosePathEndPath()
+		}
 	}
 	mark := len(rr.Calls)
 	if c.RectAfterReset {
@@ -105,16 +109,6 @@ func checkGeometry(c Case) error {
 		}
 		k++
 	}
-	cancel := 0.0
-	{
-		maxVB := 0.0
-		for _, o := range c.Ops {
-			for _, f := range o.F {
-				maxVB = math.Max(maxVB, math.Abs(float64(f)))
-			}
-		}
-		cancel = (maxVB + math.Max(math.Abs(float64(vb[0])), math.Abs(float64(vb[1])))) * math.Max(g.SX, g.SY)
-	}
 	if len(rr.Calls) != len(exp) {
 		n := len(rr.Calls)
 		if len(exp) < n {
@@ -145,9 +139,10 @@ func checkGeometry(c Case) error {
 				return harness.Violatef("c05/draw-paint", "Draw paint %v, expected opaque black", call.P)
 			}
 		default:
-			// scale*(x - Min) is computed in float32: the rounding error is relative to
-			// |x| + |Min| (cancellation), not only to the pixel magnitude
-			m := math.Max(pathMax[pathOf[i]], 1) + cancel
+			// x - Min is one float32 subtraction of two float32 values (error relative to the
+			// difference, however large |x| and |Min| are), then one multiplication: the error is
+			// relative to the pixel magnitudes of the path, and accumulates through the pen
+			m := math.Max(pathMax[pathOf[i]], 1)
 			tol := 16 * eps32 * m * float64(e.k+1)
 			n := map[rast.CallKind]int{rast.MoveTo: 2, rast.LineTo: 2, rast.QuadTo: 4, rast.CubeTo: 6}[call.K]
 			for j := 0; j < n; j++ {
@@ -161,7 +156,7 @@ func checkGeometry(c Case) error {
 	return nil
 }
 
-var subGeom = harness.Define("geometry", "drawing-op sequences over the 18 non-arc path verbs (1-3 paths, runs 1-5) x viewBoxes (default, off-centre, non-square) x target rectangles (any origin, 1-600 px, mostly non-uniform scale), opaque flat fill: rasteriser call kinds/order equal a float64 reference of SVG path semantics and each coordinate is within 16*eps32*M*(k+1); non-trivial = >= 3 ops incl. a relative op, a smooth op and a close-and-move under a non-default viewBox or non-uniform scale", checkGeometry)
+var subGeom = harness.Define("geometry", "drawing-op sequences over the 18 non-arc path verbs (1-3 paths, runs 1-5) x viewBoxes (default, off-centre, non-square) x target rectangles (any origin, 1-600 px, mostly non-uniform scale), opaque flat fill: rasteriser call kinds/order equal a float64 reference of SVG path semantics and each coordinate is within 16*eps32*M*(k+1), M the largest pixel magnitude of the path (also for small viewBoxes up to 10^6 sizes away from the origin); non-trivial = >= 3 ops incl. a relative op, a smooth op and a close-and-move under a non-default viewBox or non-uniform scale", checkGeometry)
 
 var verbs = append([]ops.Kind{ops.ClosePathEndPath}, gen.DrawVerbs[:16]...) // 17 verbs that can follow; StartPath is the 18th
 
@@ -172,6 +167,17 @@ func genCase(t *rapid.T) Case {
 	vb := gen.ViewBox(t, "vb", false)
 	if vb[2]-vb[0] > 5000 || vb[3]-vb[1] < 0.01 { // the extreme class belongs to other properties
 		vb = [4]float32{-10, 0, 30, 100}
+	}
+	far := rapid.IntRange(0, 7).Draw(t, "far") == 0
+	var farMin, farSize float32
+	if far {
+		// a small viewBox very far from the origin (|Min|/size up to 10^6), same offset on both axes
+		farMin = float32(math.Ldexp(1, rapid.IntRange(8, 20).Draw(t, "far.k"))) + float32(rapid.IntRange(0, 15).Draw(t, "far.j"))
+		if rapid.Bool().Draw(t, "far.neg") {
+			farMin = -farMin
+		}
+		farSize = float32(rapid.SampledFrom([]int{1, 2, 8, 16, 48, 64}).Draw(t, "far.size"))
+		vb = [4]float32{farMin, farMin, farMin + farSize, farMin + farSize*float32(rapid.SampledFrom([]int{1, 2}).Draw(t, "far.aspect"))}
 	}
 	for i, v := range vb {
 		c.ViewBox[i] = ops.F32(v)
@@ -188,6 +194,7 @@ func genCase(t *rapid.T) Case {
 		c.PrevRect = [4]int{rapid.IntRange(-50, 200).Draw(t, "px"), rapid.IntRange(-50, 200).Draw(t, "py"), rapid.IntRange(1, 600).Draw(t, "pw"), rapid.IntRange(1, 600).Draw(t, "ph")}
 	}
 	if c.PrevRect[2] > 0 {
+		c.PrevOpen = rapid.IntRange(0, 2).Draw(t, "prevopen") == 0
 		switch rapid.IntRange(0, 2).Draw(t, "prevvb") {
 		case 0: // same size, origin shifted by whole units: same scale, other bias
 			dx, dy := float32(rapid.IntRange(-40, 40).Draw(t, "pvdx")), float32(rapid.IntRange(-40, 40).Draw(t, "pvdy"))
@@ -200,6 +207,14 @@ func genCase(t *rapid.T) Case {
 		}
 	}
 	num := func(t *rapid.T, l string) float32 { return gen.Moderate(t, l, 200) }
+	numRel := num
+	if far {
+		// absolute operands inside (or just around) the far box, relative ones of its size
+		num = func(t *rapid.T, l string) float32 {
+			return farMin + farSize*float32(rapid.IntRange(-16, 80).Draw(t, l))/64
+		}
+		numRel = func(t *rapid.T, l string) float32 { return farSize * float32(rapid.IntRange(-32, 32).Draw(t, l)) / 64 }
+	}
 	np := rapid.IntRange(1, 3).Draw(t, "paths")
 	for p := 0; p < np; p++ {
 		sp := ops.OpStartPath(0, num(t, "sx"), num(t, "sy"))
@@ -212,7 +227,11 @@ func genCase(t *rapid.T) Case {
 			k := rapid.SampledFrom(gen.DrawVerbs[:16]).Draw(t, "verb")
 			run := rapid.SampledFrom([]int{1, 1, 1, 2, 3, 5}).Draw(t, "run")
 			for r := 0; r < run && n > 0; r++ {
-				o := gen.DrawOp(t, k, num, "d")
+				nf := num
+				if k.IsRelative() {
+					nf = numRel
+				}
+				o := gen.DrawOp(t, k, nf, "d")
 				// sometimes a control point or target coincides exactly with the pen
 				// or with the start of the sub-path (shared vertices, zero-length
 				// relative offsets: ordinary in hand-written and exported paths)
@@ -295,6 +314,9 @@ func classify(c Case) (bool, []string) {
 	}
 	if nonDefault {
 		labels = append(labels, "non-default-viewbox")
+		if m, w := math.Abs(float64(c.ViewBox[0])), float64(c.ViewBox[2])-float64(c.ViewBox[0]); m > 200*w {
+			labels = append(labels, "viewbox-more-than-200-sizes-from-the-origin")
+		}
 	}
 	if c.Rect[0] != 0 || c.Rect[1] != 0 {
 		labels = append(labels, "rect-off-origin")
@@ -304,6 +326,9 @@ func classify(c Case) (bool, []string) {
 	}
 	if c.PrevRect[2] > 0 {
 		labels = append(labels, "renderer-re-pointed")
+		if c.PrevOpen {
+			labels = append(labels, "earlier-use-stopped-inside-a-path")
+		}
 		if c.PrevViewBox[2] > c.PrevViewBox[0] {
 			labels = append(labels, "earlier-use-had-another-viewbox")
 		}
